@@ -83,7 +83,7 @@ impl Binder {
             } => self.bind_in_subquery(*expr, *subquery, negated),
             Expr::Exists { subquery, negated } => self.bind_exists(*subquery, negated),
             Expr::Subquery(query) => self.bind_subquery(*query),
-            _ => todo!("bind expression: {:?}", expr),
+            expr => Err(ErrorKind::Todo(format!("expression {expr:?}")).into()),
         }?;
         self.type_(id)?;
         Ok(id)
@@ -146,9 +146,11 @@ impl Binder {
             Custom(name) => match name.as_str() {
                 "<->" => Node::VectorL2Distance([l, r]),
                 "<#>" => Node::VectorNegtiveInnerProduct([l, r]),
-                op => todo!("bind custom binary op: {:?}", op),
+                op => {
+                    return Err(ErrorKind::Todo(format!("binary operator {op:?}")).into());
+                }
             },
-            _ => todo!("bind binary op: {:?}", op),
+            _ => return Err(ErrorKind::Todo(format!("binary operator {op:?}")).into()),
         };
         Ok(self.egraph.add(node))
     }
@@ -160,7 +162,7 @@ impl Binder {
             Plus => expr,
             Minus => self.egraph.add(Node::Neg(expr)),
             Not => self.egraph.add(Node::Not(expr)),
-            _ => todo!("bind unary operator: {:?}", op),
+            _ => return Err(ErrorKind::Todo(format!("unary operator {op:?}")).into()),
         })
     }
 
@@ -204,7 +206,7 @@ impl Binder {
                     .egraph
                     .add(Node::Constant(DataValue::Timestamp(timestamp))))
             }
-            t => todo!("support typed string: {:?}", t),
+            t => Err(ErrorKind::Todo(format!("typed string {t:?}")).into()),
         }
     }
 
@@ -236,14 +238,18 @@ impl Binder {
     fn bind_interval(&mut self, interval: parser::Interval) -> Result {
         let Expr::Value(Value::Number(v, _) | Value::SingleQuotedString(v)) = *interval.value
         else {
-            panic!("interval value must be number or string");
+            return Err(ErrorKind::Todo("interval value must be a number or a string".into()).into());
         };
-        let num = v.parse().expect("interval value is not a number");
+        let num = (v.parse()).map_err(|_| {
+            ErrorKind::InvalidExpression(format!("interval value {v:?} is not a number"))
+        })?;
         let value = DataValue::Interval(match interval.leading_field {
             Some(DateTimeField::Day) => Interval::from_days(num),
             Some(DateTimeField::Month) => Interval::from_months(num),
             Some(DateTimeField::Year) => Interval::from_years(num),
-            f => todo!("Support interval with leading field: {f:?}"),
+            f => {
+                return Err(ErrorKind::Todo(format!("interval with leading field {f:?}")).into());
+            }
         });
         Ok(self.egraph.add(Node::Constant(value)))
     }
@@ -361,7 +367,7 @@ impl Binder {
                     break;
                 }
                 FunctionArgExpr::QualifiedWildcard(_) => {
-                    todo!("support qualified wildcard")
+                    return Err(ErrorKind::Todo("qualified wildcard".into()).into());
                 }
             }
         }
@@ -450,7 +456,7 @@ impl Binder {
             "replace" => Node::Replace([args[0], args[1], args[2]]),
             "repeat" => Node::Repeat([args[0], args[1]]),
             "row_number" => Node::RowNumber,
-            name => todo!("Unsupported function: {}", name),
+            name => return Err(ErrorKind::Todo(format!("function {name}")).into()),
         };
         let mut id = self.egraph.add(node);
         if let Some(window) = func.over {
@@ -475,7 +481,7 @@ impl Binder {
         let partitionby = self.bind_exprs(window.partition_by)?;
         let orderby = self.bind_orderby(window.order_by)?;
         if window.window_frame.is_some() {
-            todo!("support window frame");
+            return Err(ErrorKind::Todo("window frame".into()).into());
         }
         Ok(self.egraph.add(Node::Over([func, partitionby, orderby])))
     }
